@@ -139,8 +139,12 @@ namespace ST
         {
             ST::uint_formatter<unsigned int> formatter;
             formatter.format(std::abs(num), 10, false);
-            if (num < 0)
+            if (num < 0) {
+                // Reserve room for sign and digits together, so that a failed
+                // allocation cannot leave a lone '-' behind
+                expand_buffer(formatter.size() + 1);
                 append_char('-');
+            }
             return append(formatter.text(), formatter.size());
         }
 
@@ -155,8 +159,12 @@ namespace ST
         {
             ST::uint_formatter<unsigned long> formatter;
             formatter.format(std::abs(num), 10, false);
-            if (num < 0)
+            if (num < 0) {
+                // Reserve room for sign and digits together, so that a failed
+                // allocation cannot leave a lone '-' behind
+                expand_buffer(formatter.size() + 1);
                 append_char('-');
+            }
             return append(formatter.text(), formatter.size());
         }
 
@@ -171,8 +179,12 @@ namespace ST
         {
             ST::uint_formatter<unsigned long long> formatter;
             formatter.format(std::abs(num), 10, false);
-            if (num < 0)
+            if (num < 0) {
+                // Reserve room for sign and digits together, so that a failed
+                // allocation cannot leave a lone '-' behind
+                expand_buffer(formatter.size() + 1);
                 append_char('-');
+            }
             return append(formatter.text(), formatter.size());
         }
 
